@@ -128,99 +128,118 @@ def sortByScore (scores : List (Id × Nat)) : List (Id × Nat) :=
   scores.foldl (fun (acc : List (Id × Nat)) e =>
     let r := acc.span (fun x => x.2 ≤ e.2); r.1 ++ [e] ++ r.2) []
 
+/-- the recursive call of `compile_roots`, as a parameter of the pieces below -/
+abbrev Rec := St → Id → Option Id → Nat → Nat → List Id → St × Res
+
+/-- continue with `f` after a step that ended without exception; an exception is passed on -/
+def thenOk (x : St × Res) (f : St → St × Res) : St × Res :=
+  match x with
+  | (s, .ok) => f s
+  | other => other
+
+/-- `except NoCandidateException`: the handler gets the state and what the exception names -/
+def onNoCand (x : St × Res) (f : St → Name → List Clause → St × Res) : St × Res :=
+  match x with
+  | (s, .noCand k cs) => f s k cs
+  | r => r
+
+/-- case "the node is solved": `for req in sorted(node.dependencies)` (stop at the first exception), mark complete,
+one retry with budget 0 after a `NoCandidateException` -/
+def visitSolved (env : Env) (rec : Rec) (s : St) (i : Id) (source : Option Id) (depth maxDown : Nat) (path : List Id) : St × Res :=
+  let n := s.get i
+  if n.complete then (s, .ok) else
+  if depth > env.maxDepth then (s, .internal "ValueError") else
+  let deps := sortIdsByKey s (n.deps.map (·.1))
+  let pathI := if path.contains i then path else path ++ [i]
+  let looped : St × Res := deps.foldl (fun (acc : St × Res) d =>
+    thenOk acc fun s => if path.contains d then (s, .ok) else rec s d (some i) (depth+1) maxDown pathI) (s, .ok)
+  let looped : St × Res := thenOk looped fun s' => (setComplete s' i true, .ok)
+  onNoCand looped fun s' k cs =>
+    if maxDown = 0 then (s', .noCand k cs)
+    else rec (setComplete s' i false) i source depth 0 path   -- `node.complete = False` (D42 repair)
+
+/-- the query, the repository's answer, `add_dist`, and the walk over the nodes it returned -/
+def attempt (env : Env) (rec : Rec) (s : St) (i : Id) (source : Option Id) (depth maxDown : Nat) (path : List Id) (spec : Req) : St × Res :=
+  match getDist env s spec with
+  | none => (s, .noCand (keyOfReq spec) (sortNats spec.clauses))
+  | some m =>
+    let reason : Option Req := match source with
+      | none => none
+      | some src => match (s.get src).deps.find? (·.1 = i) with | some (_, r) => r | none => none
+    match liftM (addDist 400 s (normName m.name, some m) source reason env.order) with
+    | .error k => (s, .internal k)
+    | .ok (s1, out) =>
+      (sortIdsByKey s1 out).foldl (fun (acc : St × Res) x =>
+        thenOk acc fun s => rec s x source (depth+1) maxDown path) (s1, .ok)
+
+/-- the conflict walk-back (`maxDown > 0`): blame the requirer with the highest violation score, exclude its version
+through a `#bad#` container, re-solve the node and the blamed requirer, remove the container (`finally`) -/
+def walkBack (env : Env) (rec : Rec) (s1 : St) (i : Id) (depth maxDown : Nat) (path : List Id) (k : Name) (cs : List Clause) : St × Res :=
+  let rds := sortIdsByKey s1 (s1.get i).rdeps
+  match scorePairs env s1 i rds [] with
+  | .error kd => (s1, .internal kd)
+  | .ok scores =>
+    match (sortByScore scores).find? (fun e => match (s1.get e.1).md with | some m => !m.isMeta | none => false) with
+    | none => (s1, .noCand k cs)
+    | some (bad, _) =>
+      match (s1.get bad).md with
+      | none => (s1, .internal "AssertionError")
+      | some bm =>
+        match liftM (nodeStr s1 bad) with
+        | .error kd => (s1, .internal kd)
+        | .ok bstr =>
+        let cname := (s!"#bad#-{bstr}-{depth}").toList
+        let ne := ((env.neClause.find? (·.1 = (normName bm.name, bm.version.getD 0))).map (·.2)).getD 0
+        let breq : Req := { name := bm.name, extras := [], clauses := [ne], marker := none }
+        let cmeta : Meta := { name := cname, version := some 0, vtext := "0.0.0", isMeta := true, reqs := [breq] }
+        let step : Except String (St × List Id) := do
+          let s2 ← liftM (removeDists 400 s1 bad false)
+          let s2 := setComplete s2 bad false
+          let s3 ← liftM (removeDists 400 s2 i false)
+          let s3 := setComplete s3 i false
+          liftM (addDist 400 s3 (normName cname, some cmeta) none none env.order)
+        match step with
+        | .error kd => (s1, .internal kd)
+        | .ok (s4, badNodes) =>
+          let r1 := rec s4 i none depth (maxDown-1) path
+          let r2 := thenOk r1 fun s5 => rec s5 bad none depth (maxDown-1) path
+          let cleanup (s : St) : Except String St :=
+            badNodes.foldlM (fun st b => liftM (removeDists 400 st b true)) s
+          match cleanup r2.1 with
+          | .error kd => (r2.1, .internal kd)
+          | .ok s7 => (s7, r2.2)
+
+/-- case "the node is unsolved" -/
+def visitUnsolved (env : Env) (rec : Rec) (s : St) (i : Id) (source : Option Id) (depth maxDown : Nat) (path : List Id) : St × Res :=
+  match liftM (buildConstraints s i) with
+  | .error k => (s, .internal k)
+  | .ok spec0 =>
+    let spec : Option Req :=
+      if env.usePins then
+        let pin := ((env.pins.reverse.find? (·.1 = normName (safeName spec0.name))).map (·.2)).getD spec0
+        mergeReq spec0 pin
+      else some spec0
+    match spec with
+    | none => (s, .internal "ValueError")
+    | some spec =>
+    onNoCand (attempt env rec s i source depth maxDown path spec) fun s1 k cs =>
+      if maxDown = 0 then (s1, .noCand k cs) else walkBack env rec s1 i depth maxDown path k cs
+
+/-- one activation of `compile_roots` -/
+def body (env : Env) (rec : Rec) (s : St) (i : Id) (source : Option Id) (depth maxDown : Nat) (path : List Id) : St × Res :=
+  let n := s.get i
+  let replaced : Bool := match s.lookup n.key with
+    | some j => decide (j ≠ i)
+    | none => false
+  if replaced then (s, .ok) else
+  match n.md with
+  | some _ => visitSolved env rec s i source depth maxDown path
+  | none => visitUnsolved env rec s i source depth maxDown path
+
 /-- `compile_roots`; always returns the state (exceptions carry it along). -/
-def compileRoots (env : Env) : Nat → St → Id → Option Id → Nat → Nat → List Id → St × Res
-  | 0, s, _, _, _, _, _ => (s, .internal "RecursionError")
-  | fuel+1, s, i, source, depth, maxDown, path =>
-    let n := s.get i
-    let replaced : Bool := match s.lookup n.key with
-      | some j => decide (j ≠ i)
-      | none => false
-    if replaced then (s, .ok) else
-    match n.md with
-    | some _ =>
-      if n.complete then (s, .ok) else
-      if depth > env.maxDepth then (s, .internal "ValueError") else
-      let deps := sortIdsByKey s (n.deps.map (·.1))
-      let pathI := if path.contains i then path else path ++ [i]
-      -- `for req in sorted(node.dependencies)`: stop at the first exception
-      let looped : St × Res := deps.foldl (fun (acc : St × Res) d =>
-        match acc with
-        | (s, .ok) => if path.contains d then (s, .ok) else compileRoots env fuel s d (some i) (depth+1) maxDown pathI
-        | other => other) (s, .ok)
-      let looped : St × Res := match looped with
-        | (s', .ok) => (setComplete s' i true, .ok)
-        | other => other
-      match looped with
-      | (s', .noCand k cs) =>
-        if maxDown = 0 then (s', .noCand k cs)
-        else compileRoots env fuel (setComplete s' i false) i source depth 0 path   -- `node.complete = False` (D42 repair)
-      | r => r
-    | none =>
-      match liftM (buildConstraints s i) with
-      | .error k => (s, .internal k)
-      | .ok spec0 =>
-        let spec : Option Req :=
-          if env.usePins then
-            let pin := ((env.pins.reverse.find? (·.1 = normName (safeName spec0.name))).map (·.2)).getD spec0
-            mergeReq spec0 pin
-          else some spec0
-        match spec with
-        | none => (s, .internal "ValueError")
-        | some spec =>
-        let attempt : St × Res :=
-          match getDist env s spec with
-          | none => (s, .noCand (keyOfReq spec) (sortNats spec.clauses))
-          | some m =>
-            let reason : Option Req := match source with
-              | none => none
-              | some src => match (s.get src).deps.find? (·.1 = i) with | some (_, r) => r | none => none
-            match liftM (addDist 400 s (normName m.name, some m) source reason env.order) with
-            | .error k => (s, .internal k)
-            | .ok (s1, out) =>
-              (sortIdsByKey s1 out).foldl (fun (acc : St × Res) x =>
-                match acc with
-                | (s, .ok) => compileRoots env fuel s x source (depth+1) maxDown path
-                | other => other) (s1, .ok)
-        match attempt with
-        | (s1, .noCand k cs) =>
-          if maxDown = 0 then (s1, .noCand k cs) else
-          let rds := sortIdsByKey s1 (s1.get i).rdeps
-          match scorePairs env s1 i rds [] with
-          | .error kd => (s1, .internal kd)
-          | .ok scores =>
-            match (sortByScore scores).find? (fun e => match (s1.get e.1).md with | some m => !m.isMeta | none => false) with
-            | none => (s1, .noCand k cs)
-            | some (bad, _) =>
-              match (s1.get bad).md with
-              | none => (s1, .internal "AssertionError")
-              | some bm =>
-                match liftM (nodeStr s1 bad) with
-                | .error kd => (s1, .internal kd)
-                | .ok bstr =>
-                let cname := (s!"#bad#-{bstr}-{depth}").toList
-                let ne := ((env.neClause.find? (·.1 = (normName bm.name, bm.version.getD 0))).map (·.2)).getD 0
-                let breq : Req := { name := bm.name, extras := [], clauses := [ne], marker := none }
-                let cmeta : Meta := { name := cname, version := some 0, vtext := "0.0.0", isMeta := true, reqs := [breq] }
-                let step : Except String (St × List Id) := do
-                  let s2 ← liftM (removeDists 400 s1 bad false)
-                  let s2 := setComplete s2 bad false
-                  let s3 ← liftM (removeDists 400 s2 i false)
-                  let s3 := setComplete s3 i false
-                  liftM (addDist 400 s3 (normName cname, some cmeta) none none env.order)
-                match step with
-                | .error kd => (s1, .internal kd)
-                | .ok (s4, badNodes) =>
-                  let r1 := compileRoots env fuel s4 i none depth (maxDown-1) path
-                  let r2 := match r1 with
-                    | (s5, .ok) => compileRoots env fuel s5 bad none depth (maxDown-1) path
-                    | other => other
-                  let cleanup (s : St) : Except String St :=
-                    badNodes.foldlM (fun st b => liftM (removeDists 400 st b true)) s
-                  match cleanup r2.1 with
-                  | .error kd => (r2.1, .internal kd)
-                  | .ok s7 => (s7, r2.2)
-        | r => r
+def compileRoots (env : Env) : Nat → Rec
+  | 0 => fun s _ _ _ _ _ => (s, .internal "RecursionError")
+  | fuel+1 => body env (compileRoots env fuel)
 
 structure Problem where
   inputs      : List Meta
